@@ -413,7 +413,12 @@ def run_check(P, tier, seed, replay=None):
             if c.get("op"):
                 model_outs_by_idx[i] = {"bad": "driver does not build"}
     diffs = []
+    def dropped(i):
+        return isinstance(impl_outs[i], dict) and "dropped" in impl_outs[i]
     for i, c in enumerate(cases):
+        if dropped(i):
+            ctx.count("dropped:" + str(impl_outs[i]["dropped"])[:40])
+            continue
         if i in model_outs_by_idx:
             a = norm(impl_outs[i])
             b = norm(canon(model_outs_by_idx[i]))
@@ -428,6 +433,8 @@ def run_check(P, tier, seed, replay=None):
     known = load_known()
     fails = []
     for i, c in enumerate(cases):
+        if dropped(i):
+            continue
         f = safe_oracle(P, c, impl_outs[i])
         if f is not None:
             fails.append((i, f))
